@@ -96,7 +96,24 @@ func runMux(id int, c *muxCase, via string, short string) muxLine {
 		flags = diam.RequestFlag
 	}
 	m := diam.NewMessage(c.Msg.Code, flags, c.Msg.App, 11, 22, dict.Default)
-	if via == "direct" {
+	if via == "direct+warm" {
+		// the mux has already dispatched a message with the same application, code and R bit that carried
+		// another dictionary, one that does not define the command: decisions are per message
+		empty, _ := dict.NewParser()
+		mux.ServeDIAM(nil, diam.NewMessage(c.Msg.Code, flags, c.Msg.App, 33, 44, empty))
+		for drained := false; !drained; {
+			select {
+			case <-mux.ErrorReports():
+			case <-fired:
+			default:
+				drained = true
+			}
+		}
+		mu.Lock()
+		l.Fired = []int{}
+		mu.Unlock()
+	}
+	if via == "direct" || via == "direct+warm" {
 		mux.ServeDIAM(nil, m)
 	} else {
 		mc := memnet.NewConn()
@@ -173,6 +190,9 @@ func Mux(a Args) error {
 			short = sn[[2]uint32{0, c.Msg.Code}]
 		}
 		out.Emit(runMux(id, &c, "direct", short))
+		if id%3 == 0 {
+			out.Emit(runMux(id, &c, "direct+warm", short))
+		}
 		if id%8 == int(a.Seed%8) && short != "" { // a command the dictionary does not define cannot be read from a connection
 			out.Emit(runMux(id, &c, "conn", short))
 		}
